@@ -563,6 +563,10 @@ func FuzzC12(f *testing.F) {
 	f.Add([]byte("0;chunk-signature="+oracle.Sig+"\r\n\r\n"), 1, 0)
 	f.Add([]byte("ffffffffffffffff;chunk-signature="+oracle.Sig+"\r\nxx\r\n"), 1, 2)
 	f.Add([]byte("-1;chunk-signature="+oracle.Sig+"\r\nxx\r\n"), 1, 2)
+	// a lone CR among the signature's 64 octets ends no line (found by this target; the strict parser
+	// used to call it malformed)
+	f.Add([]byte("0;chunk-signature=00000000000000000000000000\r0000000000000000000000000000000000000\r\n\r\n"), 43, 0)
+	f.Add([]byte("3;chunk-signature=0000000000000000000000000000000\n00000000000000000000000000000000\r\nabc\r\n0;chunk-signature="+oracle.Sig+"\r\n\r\n"), 5, 3)
 	f.Fuzz(func(t *testing.T, stream []byte, frag int, declared int) {
 		if len(stream) > 1<<16 || frag <= 0 || declared < -5 || declared > 1<<17 {
 			return
